@@ -3,8 +3,9 @@ CHECK = dict(
     sources=["rkcommon/networking/DataStreaming.cpp"],
     variants=[dict(name="asan", flavour="asan")],
     floor={"asan:truncation_points": 10000, "asan:fixed_exact_fits": 200, "asan:fixed_one_over_rejects": 200,
-           "asan:overflow_probes": 50},
+           "asan:overflow_probes": 50, "asan:stale_cursor_scenarios": 5000},
     assumptions=[
+        "a reader whose cursor lies beyond the (shortened) data must reject every read/view of >= 1 byte; zero-size reads there are not judged",
         "array wrappers are streamed through the operator the header declares (const AbstractArray<T>&); passing a derived "
         "wrapper by its static type selects the generic POD overload (recorded in DESIGN.md, not alarmed)",
         "a default-constructed FixedBufferWriter (no buffer) is not exercised",
